@@ -253,6 +253,12 @@ def qm_configs(tier, default_cfg):
       # substring dispatch on layer names
       ("names", {"Dense": [4, 8, 3], "Activation": [3]}, S, {}),
       ("names", {"Dense": [1, 4, 1], "kernel_.*": [2, 8, 3]}, S, {}),
+      # un-anchored patterns that occur in the MIDDLE / at the END of other layer names: a limit key
+      # selects a layer only when it matches from the START of the name (re.match)
+      ("names", {"fc": [2, 8, 3], "act": [2]}, S, {}),
+      ("names", {"_x$": [1, 4, 2], "bias": [2, 4, 3], "Dense": [4, 4, 4]}, S, {}),
+      ("mlp", {"out": [2, 4, 3], "1": [1, 4, 1], "[01]$": [1, 4, 2]}, S, {}),
+      ("conv", {"_a": [2, 4, 2], "b$": [1, 4, 2], "Dense": [4, 4, 4]}, S, {}),
   ]
   if tier != "quick":
     out += [
@@ -345,6 +351,8 @@ def getq_cases(rng, tier, default_cfg):
        "Conv2D": [0, 0, 0]},
       {"default": 4, "Dense": [1, 4, 1], ".*_[0-9]$": [2, 8, 3], "lstm.*": [2, 4]},
       {"Dense": [8, 8], "LSTM": [4, 4, 4, 8], "kernel.*": [2, 8, 3, 4]},
+      # un-anchored keys occurring mid-name / at the end of a name (only a match from the start selects)
+      {"fc": [2, 8, 3], "_x$": [1, 4, 2], "Dense": [4, 4, 4], "[0-9]": [2, 4, 1], "Activation": [3]},
   ]
   cfgs = [("default", default_cfg), ("rnn", rnn_cfg(default_cfg)), ("small", small_cfg())]
   n_seq = 60 if tier == "quick" else 500
@@ -968,6 +976,56 @@ def stream_delta_models(run, ai, fb, models, default_cfg):
   run.count("delta_model_self")
   if float(t.delta()) != 0.0:
     run.violate("delta_zero", {"site": "delta_on_models"}, {"delta": float(t.delta())}, True)
+  # get_reference / get_trial are compute_model_size (x stress) EXACTLY, at every magnitude: a large
+  # reference (> 2^24 bits, odd number of bits so that no narrower float type can hold it) and two
+  # trials that differ by a few bits must be told apart; the reference scored against itself is 0
+  from qkeras import QDense
+  from tensorflow.keras import layers as L
+  from tensorflow.keras.models import Model
+
+  def big(kq, bq, units=1501, n_in=1499):
+    i = L.Input((n_in,), name="input")
+    x = QDense(units, kernel_quantizer=kq, bias_quantizer=bq, name="big")(i)
+    return Model(i, x)
+  big_models = [("big8_3", big("quantized_bits(8,0,1)", "quantized_bits(3,0,1)")),
+                ("big8_2", big("quantized_bits(8,0,1)", "quantized_bits(2,0,1)")),
+                ("big8_1", big("quantized_bits(8,0,1)", "binary")),
+                ("small", models["mlp"])]
+  sized = []
+  for stress in (1.0, 0.5):
+    for name, bm in big_models:
+      t = fb.ForgivingFactorBits(8, 8, 2, stress=stress, config={"default": ["parameters", "activations"]})
+      exact = int(t.compute_model_size(bm)[0])
+      ref = t.get_reference(bm)
+      tr = t.get_trial(bm)
+      run.case(("size_api", name, stress))
+      run.count("size_api_" + ("large" if exact >= 2 ** 24 else "small"))
+      det = {"model": name, "stress": stress, "compute_model_size": exact, "get_reference": float(ref),
+             "get_trial": float(tr), "trial_type": type(tr).__name__}
+      if core.frac(tr) != exact:
+        run.violate("size_bits", {"site": "get_trial"}, det, False)
+      if core.frac(ref) != core.frac(exact) * core.frac(stress):
+        run.violate("size_bits", {"site": "get_reference"}, det, False)
+      if stress == 1.0:
+        d0 = float(t.delta())
+        if d0 != 0.0:
+          run.violate("delta_zero", {"site": "delta_on_models", "size": "large" if exact >= 2 ** 24 else "small"},
+                      dict(det, delta=d0), False)
+        sized.append((exact, name, bm))
+  # trials of slightly different size against one large reference: strictly ordered bonus
+  t = fb.ForgivingFactorBits(8, 8, 2, config={"default": ["parameters", "activations"]})
+  t.get_reference(big_models[0][1])
+  ds = []
+  for exact, name, bm in sorted(sized, key=lambda z: z[0]):
+    if name == "small":
+      continue
+    t.get_trial(bm)
+    ds.append((exact, float(t.delta()), name))
+  for (e1, d1, n1), (e2, d2, n2) in zip(ds, ds[1:]):
+    run.count("delta_model_large_pair")
+    if e1 < e2 and not d1 > d2:
+      run.violate("delta_monotone", {"site": "delta_on_models", "size": "large"},
+                  {"t1": e1, "d1": d1, "m1": n1, "t2": e2, "d2": d2, "m2": n2}, False)
 
 
 def run(run: core.Run, tier: str):
